@@ -131,6 +131,16 @@ func run(id string, info propInfo, tier string, seed uint64, replay string) int 
 		fmt.Fprintf(os.Stderr, "building the outer harness: %v\n%s\n", err, out)
 		return 2
 	}
+	if id == "C01" {
+		// the synthetic descriptor builder must still reproduce protoc's descriptor of test.proto
+		ft := exec.Command("go", "test", "-count=1", "-run", "^TestFidelity$", "./desc")
+		ft.Dir = pipeline.HarnessDir()
+		ft.Env = append(pipeline.GoEnv(), "VERIF_REPO="+repo)
+		if out, err := ft.CombinedOutput(); err != nil {
+			fmt.Fprintf(os.Stderr, "descriptor-builder fidelity test failed (harness fault, no verdict):\n%s\n", out)
+			return 2
+		}
+	}
 	baseEnv := append(os.Environ(),
 		"VERIF_PLUGIN="+tools.Plugin, "VERIF_GOGO="+tools.Gogo, "VERIF_REPO="+repo,
 		"VERIF_SCRATCH="+scratch, "VERIF_TIER="+tier)
@@ -224,6 +234,9 @@ func run(id string, info propInfo, tier string, seed uint64, replay string) int 
 	}
 	per := (b.checks + b.shards - 1) / b.shards
 	newDir := filepath.Join(verifRoot, "replays", id, "new")
+	if d := os.Getenv("VERIF_NEWDIR"); d != "" { // sensitivity runs keep their replays out of the tree
+		newDir = filepath.Join(d, id)
+	}
 	shards := make([]*props.Shard, b.shards)
 	outputs := make([]string, b.shards)
 	status := make([]int, b.shards)
@@ -285,7 +298,7 @@ func run(id string, info propInfo, tier string, seed uint64, replay string) int 
 		violations = 1
 		code = 1
 		// keep the replay under a stable name
-		final := filepath.Join(verifRoot, "replays", id, "new", fmt.Sprintf("violation-seed%d.json", seed))
+		final := filepath.Join(newDir, fmt.Sprintf("violation-seed%d.json", seed))
 		if b, err := os.ReadFile(violReplay); err == nil {
 			_ = os.WriteFile(final, b, 0o644)
 			violReplay = final
@@ -433,6 +446,10 @@ func writeEvidence(id, tier string, seed uint64, info propInfo, shards []*props.
 		"violations": violations,
 	}
 	b, _ := json.MarshalIndent(ev, "", " ")
-	_ = os.MkdirAll(filepath.Join(verifRoot, "evidence"), 0o755)
-	_ = os.WriteFile(filepath.Join(verifRoot, "evidence", id+".json"), append(b, '\n'), 0o644)
+	evDir := filepath.Join(verifRoot, "evidence")
+	if d := os.Getenv("VERIF_EVIDENCE_DIR"); d != "" { // sensitivity runs must not overwrite the evidence of the real tree
+		evDir = d
+	}
+	_ = os.MkdirAll(evDir, 0o755)
+	_ = os.WriteFile(filepath.Join(evDir, id+".json"), append(b, '\n'), 0o644)
 }
